@@ -40,3 +40,17 @@ Definition show_option {A} (f : A -> list N) (r : option A) : list N :=
 (* oracle tables *)
 Definition table_float (tb : list (text * fnum)) : text -> option fnum := fun s => assoc s tb.
 Definition table_int (tb : list (text * Z)) : text -> option Z := fun s => assoc s tb.
+
+(* ---- messages (C02, C10, C13) *)
+From Ynca Require Import Model.Line.
+Definition END2 : N := 1114114.
+
+Definition show_status (s : status) : N :=
+  match s with StOK => 0 | StUNDEFINED => 1 | StRESTRICTED => 2 end.
+
+Definition show_msg (m : msg) : list N :=
+  show_status (fst m) ::
+  match snd m with
+  | None => [0]
+  | Some (s, f, v) => 1 :: s ++ SEP :: f ++ SEP :: v
+  end ++ [END].
